@@ -8,6 +8,7 @@
   statement of `Agent.recv_bundle`.
 -/
 import DtnVerif.Lemmas.Crc
+import DtnVerif.Lemmas.BundleDec
 import DtnVerif.Lemmas.Cbor
 import DtnVerif.Lemmas.CrcBurst
 import DtnVerif.Model.BundleDec
@@ -175,6 +176,62 @@ def exEncrypt (b : Bundle) : Bundle :=
       { c with btsd := c.btsd.map (fun d => d.map (fun x => x ^^^ 0x5a)) } }
 example : (exEncrypt exStepSrc.updateAllCrc).checkAllCrc = [1]
     ∧ ((exEncrypt exStepSrc).updateAllCrc).checkAllCrc = [] := by decide +kernel
+
+/-! ### the CRC of a block does not depend on the CRC value it already carries -/
+
+/-- `update_crc()` on a block that already has a CRC value (a decoded block, or a second
+    `update_all_crc()`): the value present is overwritten by zeros before the computation, so the
+    result is the same as for the block without it. -/
+theorem C08_update_ignores_old_value (c : Canonical) (p : Primary) (v : Option Bytes) :
+    ({ c with crc := v } : Canonical).updateCrc = c.updateCrc
+    ∧ ({ p with crc := v } : Primary).updateCrc = p.updateCrc := by
+  constructor
+  · simp only [Canonical.updateCrc, Canonical.crcValue_setCrc]
+  · simp only [Primary.updateCrc, Primary.crcValue_setCrc]
+
+theorem C08_update_idempotent (b : Bundle) : b.updateAllCrc.updateAllCrc = b.updateAllCrc := by
+  have hp := Primary.update_of_check _ (Primary.check_update b.primary)
+  simp only [Bundle.updateAllCrc, List.map_map, hp]
+  congr 1
+  apply List.map_congr_left
+  intro c _
+  exact Canonical.update_of_check _ (Canonical.check_update c)
+
+/-- A bundle whose CRCs all check (e.g. one just decoded from valid octets) is left unchanged by
+    `update_all_crc()`: the agent's `fill_fields(); update_all_crc(); bytes()` reproduces its octets. -/
+theorem C08_update_of_valid (b : Bundle) (h : b.checkAllCrc = []) : b.updateAllCrc = b := by
+  obtain ⟨hp, hc⟩ := (checkAllCrc_nil_iff b).1 h
+  cases b with
+  | mk p bs =>
+    simp only [Bundle.updateAllCrc, Primary.update_of_check p hp]
+    congr 1
+    conv => rhs; rw [← List.map_id bs]
+    apply List.map_congr_left
+    intro c hcm
+    exact Canonical.update_of_check c (hc c hcm)
+
+/-! ### surplus array items ⇒ rejected -/
+
+/-- A canonical block whose array head announces a number of items different from what its CRC type
+    dictates (5, or 6 with a CRC) does not decode — in particular a block whose CRC type octet was
+    corrupted to 0 while the CRC value is still there (head says 6, type 0 allows 5), and a head
+    `86 → 87` that swallows the following block. -/
+theorem C08_surplus_items_rejected (c : Canonical) (n : Nat) (r : Bytes) (h : wfCanonical c = true)
+    (hn : n < 2 ^ 64) (hne : n ≠ c.count) :
+    decCanonical (Cbor.encArrHead n ++ c.fields ++ r) = none := by
+  simp only [wfCanonical, Bool.and_eq_true, decide_eq_true_eq] at h
+  obtain ⟨⟨⟨⟨⟨ht, hnm⟩, hf⟩, hc⟩, hb⟩, hcrc⟩ := h
+  have hc' : ¬ (c.crcType > 2) := by omega
+  simp only [Canonical.fields, List.append_assoc, decCanonical,
+    Cbor.decArrHead_enc _ _ hn, Cbor.decUint_enc _ _ ((u64_iff _).1 ht),
+    Cbor.decUint_enc _ _ ((u64_iff _).1 hnm), Cbor.decUint_enc _ _ ((u64_iff _).1 hf),
+    Cbor.decUint_enc c.crcType _ (by omega), hc', if_false, decOptBstr_enc _ _ hb,
+    decCanonical, decCrcSlot_enc _ _ _ hcrc]
+  simp [hne]
+
+/-- CRC type octet flipped to 0 in a CRC-16 payload block: 6 items, type 0 -/
+example : decCanonical [0x86, 0x01, 0x01, 0x00, 0x00, 0x41, 0x61, 0x42, 0x12, 0x34] = none := by
+  decide +kernel
 
 /-! ### a text string in a byte-string slot is not the same field value -/
 
